@@ -457,6 +457,23 @@ class TS:
         idx = self.mems[path]
         return self.state[('mem', idx)], self.nl.cells[idx]
 
+    def instances(self, cls):
+        """The real sub-Elaboratable objects of class `cls` that elaborate() created anywhere in the hierarchy (so their
+        public Signal attributes can be addressed with ts.of(obj.signal) instead of by path)."""
+        out = []
+        for obj in getattr(self.design, "elaboratables", {}):
+            if isinstance(obj, cls):
+                out.append(obj)
+        return out
+
+    def instance(self, cls, index=None):
+        objs = self.instances(cls)
+        if index is not None:
+            return objs[index]
+        if len(objs) != 1:
+            raise BindingError(f"expected exactly one {cls.__name__} instance in the design, found {len(objs)}")
+        return objs[0]
+
     def find(self, suffix):
         return [p for p in self.paths if p == suffix or p.endswith('.' + suffix)]
 
